@@ -4,6 +4,5 @@ mod run;
 
 // verification hook (compiled only by Kani, which sets `--cfg kani`): the generated
 // reduced dispatch shell and its proof harnesses; see /verif/DESIGN.md §1.3
-#[allow(unexpected_cfgs)]
 #[cfg(kani)]
 mod verif_shell;
